@@ -4,6 +4,7 @@ import DaskModel.Lemmas.Subs
 import DaskModel.Lemmas.SubsRename
 import DaskModel.Lemmas.SpecSubst
 import DaskModel.Lemmas.SpecFuse
+import DaskModel.Lemmas.SpecCullTotal
 import DaskModel.Lemmas.FuseLinear5
 import DaskModel.Lemmas.FusedName
 /-!
@@ -427,6 +428,12 @@ theorem spec_cull_preserves_eval {g out : NGraph} {keys : List Obj} (h : cullSpe
     refine ⟨?_, hsub, hclo, evalKeyN_subgraph g _ cache hsub hclo⟩
     intro k hk hg
     rw [lookup_restrictTo, if_pos (hreq k hk hg)]; exact hg
+
+/-- **task-spec `cull` always returns**: the worklist loop terminates within the model's fuel (every pop either discards
+    a pending key or visits a new entry and pushes its dependencies), so the hypothesis of `spec_cull_preserves_eval` is
+    satisfied for every graph and key list. -/
+theorem spec_cull_total (g : NGraph) (keys : List Obj) : ∃ out, cullSpec g keys = some out :=
+  cullSpec_total g keys
 
 /-- non-vacuity: `cull({'a': Data, 'b': Task(f, a), 'c': Task(f, a)}, ['b'])` keeps `b` and `a` -/
 example : cullSpec [(.str "a", .data (.int 1)), (.str "b", .task (.call (.fn 0)) [.ref (.str "a")] []),
